@@ -71,7 +71,8 @@ def derender_dict(d, cands):
     if not isinstance(d, dict):
         return {"pairs": [["?", "?"]], "children": []}
     kids = d.get("children", [])
-    return {"pairs": [[k, token_of(v, cands)] for k, v in d.items() if k != "children"],
+    # ck: whether the dictionary carries a 'children' entry at all ("present only when non-empty")
+    return {"pairs": [[k, token_of(v, cands)] for k, v in d.items() if k != "children"], "ck": "children" in d,
             "children": [derender_dict(c, cands) for c in kids] if isinstance(kids, list) else [{"pairs": [["?", "?"]], "children": []}]}
 
 
@@ -161,7 +162,11 @@ def perform_dict(q, par, ch, idx):
     hide = set(o["ci"]["hide"])
     attriter = {"none": None, "sorted": lambda a: sorted(a, key=lambda item: item[0]),
                 "public": lambda a: [(k, v) for k, v in a if not k.startswith("_")]}[o["attriter"]]
-    childiter = {"list": list, "reversed": lambda c: list(reversed(c)), "filter": lambda c: [x for x in c if lab(x) not in hide]}[o["ci"]["kind"]]
+    # eager and lazy forms of the same child iteration (a lazy result is truthy even when it yields nothing)
+    lazy = idx % 2 == 1
+    childiter = {"list": iter if lazy else list,
+                 "reversed": reversed if lazy else (lambda c: list(reversed(c))),
+                 "filter": (lambda c: (x for x in c if lab(x) not in hide)) if lazy else (lambda c: [x for x in c if lab(x) not in hide])}[o["ci"]["kind"]]
     ml = None if o["ml"] == NOMAX else o["ml"]
     jml = None if q["jml"] == NOMAX else q["jml"]
     dictcls = OrderedDict if idx % 2 else dict
@@ -180,7 +185,7 @@ def perform_dict(q, par, ch, idx):
             obs = derender_dict(got, cands)
             ok = norm_dict(obs) == norm_dict(exp) and got == render_dict(exp)
             if ok and o["attriter"] == "sorted":
-                ok = obs == {"pairs": [list(x) for x in exp["pairs"]], "children": obs["children"]} and _sorted_everywhere(got)
+                ok = obs["pairs"] == [list(x) for x in exp["pairs"]] and _sorted_everywhere(got)
             if ok and not _types_ok(got, dictcls):
                 ok = False
             if not ok:
@@ -222,7 +227,13 @@ def perform_dict(q, par, ch, idx):
                 n += 1
                 for how in ("import_", "read", "import_ again"):
                     imp = JsonImporter() if idx % 2 else JsonImporter(dictimporter=DictImporter(nodecls=N.UserAttrs))
-                    root = imp.import_(text) if how != "read" else imp.read(io.StringIO(text))
+                    if how == "read":
+                        # read() parses from the current position of the handle (here: behind a header line)
+                        fh = io.StringIO("# header, not JSON\n" + text)
+                        fh.readline()
+                        root = imp.read(fh)
+                    else:
+                        root = imp.import_(text)
                     if how == "import_":
                         # every import is independent: values of an imported tree may be modified in place afterwards
                         stack = [root]
@@ -310,6 +321,16 @@ def _import_expect(d):
 
 # ------------------------------------------------------------------------------------------------------------- graphs
 CHARMAP = {"E": "é"}
+
+
+class StrLike:
+    """A name that is not a str (the exporters convert names with str())."""
+
+    def __init__(self, text):
+        self.text = text
+
+    def __str__(self):
+        return self.text
 
 
 def name_str(chars):
@@ -431,14 +452,14 @@ def perform_graph(q, par, ch, idx):
     escs = {l: name_str(c) for l, c in q["esc"].items()}
     N.new_universe()
     N.Ctx.log = None
+    variant = idx % 4
     for lbl in par:
-        N.register(Node(names[lbl]), lbl)
+        N.register(Node(StrLike(names[lbl]) if variant == 1 else names[lbl]), lbl)
     for pp, kids in ch.items():
         for c in kids:
             N.Ctx.objs[c].parent = N.Ctx.objs[pp]
     objs = N.Ctx.objs
     start = objs[q["s"]]
-    variant = idx % 4
     for kind, cls in (("dot", DotExporter), ("unique", UniqueDotExporter), ("mermaid", MermaidExporter)):
         if kind not in structures:
             continue
@@ -462,9 +483,12 @@ def perform_graph(q, par, ch, idx):
                 opts.update(nodefunc=lambda n, lb: "(%s)" % names[n], edgefunc=lambda a, b: "-.%s.->" % names[b])
                 ckw.update(nodefunc=lambda n: "(%s)" % n.name, edgefunc=lambda a, b: "-.%s.->" % b.name)
             else:
-                opts.update(nodeattr=lambda n, lb: "shape=box, tooltip=%s" % names[n], edgeattr=lambda a, b: 'label="%s"' % names[b],
+                # (an empty string is a result, too: only None means "no attribute list")
+                opts.update(nodeattr=lambda n, lb: "" if len(str(names[n])) % 2 else "shape=box, tooltip=%s" % names[n],
+                            edgeattr=lambda a, b: "" if len(str(names[b])) % 2 else 'label="%s"' % names[b],
                             edgetype=lambda a, b: "--")
-                ckw.update(nodeattrfunc=lambda n: "shape=box, tooltip=%s" % n.name, edgeattrfunc=lambda a, b: 'label="%s"' % b.name,
+                ckw.update(nodeattrfunc=lambda n: "" if len(str(n.name)) % 2 else "shape=box, tooltip=%s" % n.name,
+                           edgeattrfunc=lambda a, b: "" if len(str(b.name)) % 2 else 'label="%s"' % b.name,
                            edgetypefunc=lambda a, b: "--")
         if kind == "dot":
             ids = {l: escs[l] for l in par}
@@ -526,6 +550,23 @@ def perform_graph(q, par, ch, idx):
                                            "lines": advlines[:10], "expected": lines[:10]})
                 except Exception as e:  # noqa
                     res["bad"].append({"kind": kind, "prop": prop, "direct": True, "what": "export of a tree of always-equal nodes raised %s: %s" % (type(e).__name__, str(e)[:100])})
+            if kind != "dot" and variant in (0, 1) and len(tok["nodes"]) >= 3 and not opts["options"]:
+                # default identifiers belong to nodes, not to positions: hide the second declared node and iterate again
+                idre2 = re.compile(r'^ *"?(0x[0-9a-f]+|N\d+)"?(?: \[|\[|\(|;)')
+                first_ids = [m.group(1) for m in map(idre2.match, lines) if m]
+                gone = tok["nodes"][1]
+                if len(first_ids) == len(tok["nodes"]) and gone in fls:
+                    fls.discard(gone)
+                    try:
+                        again_lines = list(ex)
+                    finally:
+                        fls.add(gone)
+                    second_ids = [m.group(1) for m in map(idre2.match, again_lines) if m]
+                    keep = [n for n in tok["nodes"] if n != gone]
+                    want = [i for n, i in zip(tok["nodes"], first_ids) if n != gone]
+                    if len(second_ids) == len(keep) and second_ids != want:
+                        res["bad"].append({"kind": kind, "prop": prop, "direct": True, "what": "identifiers of the surviving nodes changed between two iterations of one exporter",
+                                           "ids_before": first_ids, "ids_after": second_ids})
             if kind != "dot" and variant == 0 and not fls.symmetric_difference(par) and not sts and tok["nodes"]:
                 # default identifiers stay distinct per node and stable across iterations of ONE exporter, also when the
                 # tree grows between two iterations and when two iterations are interleaved
